@@ -1,7 +1,9 @@
 /* C13 binding: replays TLC-generated load/link behaviours of spec/MIRLink.tla on a real MIR context.
    Module <s,v> is built through the API from the declaration list of its shape: an exported or local
    function `n` returns 10000*(n+1)+100*s+v, a data item `n` holds the same number K (a data section `n`
-   is `n: i64 K` followed by the anonymous items `i64 K+1` and `i32 K+2` and must be one block); per module the
+   is `n: i64 K` followed by the anonymous items `i64 K+1` and `i32 K+2` and must be one block; a calling
+   function g/G `n` is `call <import c>; add K` (G padded with 60 insns so that a plain call of it is not
+   inlined; F is a plain function padded the same way); what a call yields comes from the model); per module the
    observers  entry/late (store the address of every import/forward into a buffer), call_<n>
    (MIR_CALL of the import), inl_<n> (MIR_INLINE of the import) and rd_<n> (loads i64 at import + offset) are appended.  After every Link
    the observers of every module linked so far are run (MIR_interp, or the generated code when the
@@ -11,10 +13,10 @@
 
    Input (stdin), tokens:
      C <case> <engine>
-     L <s> <v> <nd> {<kind> <name>}* <cerr> <err>        kind: 0 f 1 d 2 i 3 e 4 w 5 s
+     L <s> <v> <nd> {<kind> <name> <callee>}* <cerr> <err>   kind: 0 f 1 d 2 i 3 e 4 w 5 s 6 g 7 G 8 F (callee -1: none)
      X <name> <id>
      P <b>
-     K <useRes> <Rmask> <err> <ncalls> {<name>}* <nb> {<s> <v> <n> <t> <ds> <dv> <dk>}*   t: 0 mir 1 ext 2 res
+     K <useRes> <Rmask> <err> <ncalls> {<name>}* <nb> {<s> <v> <n> <t> <ds> <dv> <dk> <val>}*   t: 0 mir 1 ext 2 res; val: what a call yields (-1: not callable)
      E <nf> {<name> <t> <ds> <dv> <dk>}*      the model's environment at the end (t = -1: no definition)
    err: 0 none 1 repeated_decl 2 undeclared_op_ref 3 import_export
    Output: P <case> before every case, FAIL <case> <step> <key> <text>, and a final DONE <cases> <steps> <fails>. */
@@ -132,6 +134,7 @@ typedef struct {
   int defmulti[NN];             /* the definition is a data section of three items */
   int defkind[NN];              /* 0 func 1 data -1 none */
   int b_t[NN], b_s[NN], b_v[NN], b_k[NN]; /* last model binding per name */
+  int64_t b_val[NN];                      /* what a call through it yields according to the model (-1: nothing to call) */
 } inst_t;
 static inst_t inst[MAX_INST];
 static int n_inst;
@@ -193,12 +196,13 @@ static MIR_item_t rd_func (inst_t *in, int n) { /* rd_<n> (off): the i64 at (add
 }
 
 /* builds and loads one module; everything runs under the caller's trap */
-static void build_module (inst_t *in, int nd, int *kinds, int *names) {
+static void build_module (inst_t *in, int nd, int *kinds, int *names, int *callees) {
   char name[32];
   MIR_type_t i64 = MIR_T_I64;
   MIR_item_t proto;
   sprintf (name, "m%d_%d", in->s, in->v);
   in->m = MIR_new_module (ctx, name);
+  proto = MIR_new_proto (ctx, "p_ret", 1, &i64, 0);
   for (int i = 0; i < nd; i++) {
     int n = names[i];
     int64_t k = val_of (n, in->s, in->v);
@@ -210,6 +214,28 @@ static void build_module (inst_t *in, int nd, int *kinds, int *names) {
       MIR_finish_func (ctx);
       in->def[n] = it; in->defkind[n] = 0;
       break;
+    case 6:
+    case 7:
+    case 8: { /* g, G: r = <import callee> (); r += K;   F: r = K;   G and F: 60 more insns that cancel out */
+      MIR_reg_t r;
+      it = MIR_new_func (ctx, nm[n], 1, &i64, 0);
+      r = MIR_new_func_reg (ctx, it->u.func, MIR_T_I64, "r");
+      if (kinds[i] == 8) {
+        MIR_append_insn (ctx, it, MIR_new_insn (ctx, MIR_MOV, MIR_new_reg_op (ctx, r), MIR_new_int_op (ctx, k)));
+      } else {
+        MIR_append_insn (ctx, it, MIR_new_call_insn (ctx, 3, MIR_new_ref_op (ctx, proto), MIR_new_ref_op (ctx, in->ref[callees[i]]), MIR_new_reg_op (ctx, r)));
+        MIR_append_insn (ctx, it, MIR_new_insn (ctx, MIR_ADD, MIR_new_reg_op (ctx, r), MIR_new_reg_op (ctx, r), MIR_new_int_op (ctx, k)));
+      }
+      if (kinds[i] != 6) {
+        for (int j = 0; j < 60; j++)
+          MIR_append_insn (ctx, it, MIR_new_insn (ctx, MIR_ADD, MIR_new_reg_op (ctx, r), MIR_new_reg_op (ctx, r), MIR_new_int_op (ctx, j + 1)));
+        MIR_append_insn (ctx, it, MIR_new_insn (ctx, MIR_SUB, MIR_new_reg_op (ctx, r), MIR_new_reg_op (ctx, r), MIR_new_int_op (ctx, 60 * 61 / 2)));
+      }
+      MIR_append_insn (ctx, it, MIR_new_ret_insn (ctx, 1, MIR_new_reg_op (ctx, r)));
+      MIR_finish_func (ctx);
+      in->def[n] = it; in->defkind[n] = 0;
+      break;
+    }
     case 1: in->def[n] = MIR_new_data (ctx, nm[n], MIR_T_I64, 1, &k); in->defkind[n] = 1; break;
     case 5: {
       int64_t k1 = k + 1;
@@ -229,7 +255,6 @@ static void build_module (inst_t *in, int nd, int *kinds, int *names) {
     if (in->ref[n] != NULL && in->ref[n]->item_type == MIR_forward_item && in->def[n] == NULL) in->ref[n] = NULL;
     if (in->ref[n] != NULL) in->refs[in->nrefs++] = n;
   }
-  proto = MIR_new_proto (ctx, "p_ret", 1, &i64, 0);
   in->entry = addr_func (in, "entry");
   in->late = addr_func (in, "late");
   for (int k = 0; k < in->nrefs; k++) {
@@ -317,7 +342,8 @@ static void observe (inst_t *in, MIR_item_t afunc, const char *how, int calls_p)
       }
       continue;
     }
-    if (!calls_p) continue;
+    if (!calls_p || in->b_val[n] < 0) continue; /* -1: the called function would call something that is not a function */
+    val = in->b_val[n];                         /* from the model: through the bindings the called module got at ITS link step */
     if ((got = run0 (in->call[n])) != val) { FAIL ("call_value", "call of %s %s from m%d_%d returns %ld expected %ld", what, nm[n], in->s, in->v, (long) got, (long) val); break; }
     if ((got = run0 (in->inl[n])) != val) { FAIL ("inline_value", "inline call of %s %s from m%d_%d returns %ld expected %ld", what, nm[n], in->s, in->v, (long) got, (long) val); break; }
   }
@@ -347,7 +373,7 @@ static void end_case (int clean) {
 
 int main (void) {
   char tag[8];
-  static int kinds[32], names[32];
+  static int kinds[32], names[32], callees[32];
   while (scanf ("%7s", tag) == 1) {
     if (tag[0] == 'C') {
       if (scanf ("%ld %d", &caseno, &engine) != 2) return 3;
@@ -362,7 +388,7 @@ int main (void) {
       int s, v, nd, cerr, err, got = 0;
       inst_t *in;
       if (scanf ("%d %d %d", &s, &v, &nd) != 3) return 3;
-      for (int i = 0; i < nd; i++) if (scanf ("%d %d", &kinds[i], &names[i]) != 2) return 3;
+      for (int i = 0; i < nd; i++) if (scanf ("%d %d %d", &kinds[i], &names[i], &callees[i]) != 3) return 3;
       if (scanf ("%d %d", &cerr, &err) != 2) return 3;
       step++; nsteps++;
       if (bad || ctx == NULL) continue;
@@ -371,7 +397,7 @@ int main (void) {
       for (int n = 0; n < NN; n++) in->defkind[n] = -1;
       trap_armed = 1;
       if (setjmp (trap_buf) == 0) {
-        build_module (in, nd, kinds, names);
+        build_module (in, nd, kinds, names, callees);
         if (cerr != 0) {
           trap_armed = 0;
           FAIL ("construct_accepted", "module m%d_%d was built without error, expected %s", s, v, err_name (cerr));
@@ -408,12 +434,12 @@ int main (void) {
       if (MIR_get_func_redef_permission_p (ctx) != b) FAIL ("permit", "permission not stored");
     } else if (tag[0] == 'K') {
       int use_res, err, ncalls, calls[16], nb, got = 0;
-      static int bs[64][7];
+      static int bs[64][8];
       if (scanf ("%d %d %d %d", &use_res, &res_mask, &err, &ncalls) != 4) return 3;
       for (int i = 0; i < ncalls; i++) if (scanf ("%d", &calls[i]) != 1) return 3;
       if (scanf ("%d", &nb) != 1) return 3;
       for (int i = 0; i < nb; i++)
-        for (int j = 0; j < 7; j++) if (scanf ("%d", &bs[i][j]) != 1) return 3;
+        for (int j = 0; j < 8; j++) if (scanf ("%d", &bs[i][j]) != 1) return 3;
       step++; nsteps++;
       if (bad || ctx == NULL) continue;
       n_res_calls = 0;
@@ -446,7 +472,7 @@ int main (void) {
         inst_t *in = find_inst (bs[i][0], bs[i][1]);
         int n = bs[i][2];
         if (in == NULL) { FAIL ("machinery", "binding of unknown instance"); break; }
-        in->b_t[n] = bs[i][3]; in->b_s[n] = bs[i][4]; in->b_v[n] = bs[i][5]; in->b_k[n] = bs[i][6];
+        in->b_t[n] = bs[i][3]; in->b_s[n] = bs[i][4]; in->b_v[n] = bs[i][5]; in->b_k[n] = bs[i][6]; in->b_val[n] = bs[i][7];
         in->have_bound |= 1 << n;
       }
       trap_armed = 1;
